@@ -430,6 +430,12 @@ func checkBodySite(p *Prog, c *Check, u ReaderUse, onPath map[*ssa.Function]bool
 	// same object for header stage and body stage
 	sameObj := false
 	why := ""
+	type liftedStage struct {
+		fn   *ssa.Function
+		call *ssa.Call
+		base ssa.Value
+	}
+	var lifted []liftedStage
 	switch {
 	case cls.alloc != nil:
 		sameObj = true
@@ -442,6 +448,38 @@ func checkBodySite(p *Prog, c *Check, u ReaderUse, onPath map[*ssa.Function]bool
 		hp, ok2 := w.recv.(*ssa.Parameter)
 		if ok1 && ok2 {
 			bi, hi := paramIndex(fn, bp), paramIndex(w.fn, hp)
+			// the body read may sit in a helper of the body stage: follow the header object up through callers
+			// that merely pass their own parameter on (each must have a single call site of the callee)
+			bodyFn := fn
+			for depth := 0; depth < 3; depth++ {
+				var site *ssa.Call
+				var in *ssa.Function
+				n := 0
+				for _, cf := range sortedFuncs(onPath) {
+					for _, ci := range p.Calls(cf) {
+						call, ok := ci.Site.(*ssa.Call)
+						if !ok {
+							continue
+						}
+						for _, cal := range ci.Callees {
+							if cal == bodyFn {
+								n++
+								site, in = call, cf
+							}
+						}
+					}
+				}
+				if n != 1 || bi >= len(site.Common().Args) {
+					break
+				}
+				ap, isParam := site.Common().Args[bi].(*ssa.Parameter)
+				if !isParam {
+					break
+				}
+				lifted = append(lifted, liftedStage{fn: in, call: site, base: ap})
+				bodyFn, bi = in, paramIndex(in, ap)
+			}
+			fn := bodyFn
 			// common callers
 			for _, cf := range sortedFuncs(onPath) {
 				var hArg, bArg ssa.Value
@@ -497,67 +535,80 @@ func checkBodySite(p *Prog, c *Check, u ReaderUse, onPath map[*ssa.Function]bool
 	} else {
 		c.Unk("R6.2", cons, pos, "cannot show that the body size is the length read by the header stage: "+why)
 	}
-	// R6.4 — exits of the body stage
+	// R6.4 — exits of the body stage (and of every caller the header object was followed through)
 	okAll := true
-	for _, b := range fn.Blocks {
-		ret, ok := terminator(b).(*ssa.Return)
-		if !ok {
-			continue
-		}
-		if u.Ins.Block().Dominates(b) {
-			continue
-		}
-		// must be on the zero edge of a test of the same cell
-		onZero := false
-		for d := b; d != nil; d = d.Idom() {
-			id := d.Idom()
-			if id == nil {
-				break
-			}
-			iff, ok := terminator(id).(*ssa.If)
+	type stage struct {
+		fn   *ssa.Function
+		read ssa.Instruction
+		base ssa.Value
+	}
+	stages := []stage{{fn, u.Ins, base}}
+	for _, ls := range lifted {
+		stages = append(stages, stage{ls.fn, ls.call, ls.base})
+	}
+	for _, stg := range stages {
+		fn, base := stg.fn, stg.base
+		readIns := stg.read
+		for _, b := range fn.Blocks {
+			ret, ok := terminator(b).(*ssa.Return)
 			if !ok {
 				continue
 			}
-			bo, ok := iff.Cond.(*ssa.BinOp)
-			if !ok {
+			if readIns.Block().Dominates(b) {
 				continue
 			}
-			var x ssa.Value
-			if k0, ok := constInt(bo.Y); ok && k0 == 0 {
-				x = bo.X
-			} else if k0, ok := constInt(bo.X); ok && k0 == 0 {
-				x = bo.Y
-			} else {
+			// must be on the zero edge of a test of the same cell
+			onZero := false
+			for d := b; d != nil; d = d.Idom() {
+				id := d.Idom()
+				if id == nil {
+					break
+				}
+				iff, ok := terminator(id).(*ssa.If)
+				if !ok {
+					continue
+				}
+				bo, ok := iff.Cond.(*ssa.BinOp)
+				if !ok {
+					continue
+				}
+				var x ssa.Value
+				if k0, ok := constInt(bo.Y); ok && k0 == 0 {
+					x = bo.X
+				} else if k0, ok := constInt(bo.X); ok && k0 == 0 {
+					x = bo.Y
+				} else {
+					continue
+				}
+				l2, ok := p.stripNonNarrowing(x).(*ssa.UnOp)
+				if !ok || l2.Op.String() != "*" {
+					continue
+				}
+				if k2, b2, ok := classOfAddr(l2.X); !ok || !k2.same(cls) || b2 != base {
+					continue
+				}
+				zeroSucc := -1
+				switch bo.Op.String() {
+				case "==":
+					zeroSucc = 0
+				case "!=":
+					zeroSucc = 1
+				}
+				if zeroSucc >= 0 && edgeDominates(id, id.Succs[zeroSucc], b) {
+					onZero = true
+				}
+			}
+			if onZero {
+				// no read may precede it
+				if mayFollow(readIns, ret) {
+					okAll = false
+					c.Bad("R6.4", cons, posOf(p, ret), "exit on the zero-length edge is reachable after the body read")
+				}
 				continue
 			}
-			l2, ok := p.stripNonNarrowing(x).(*ssa.UnOp)
-			if !ok || l2.Op.String() != "*" {
-				continue
-			}
-			if k2, b2, ok := classOfAddr(l2.X); !ok || !k2.same(cls) || b2 != base {
-				continue
-			}
-			zeroSucc := -1
-			switch bo.Op.String() {
-			case "==":
-				zeroSucc = 0
-			case "!=":
-				zeroSucc = 1
-			}
-			if zeroSucc >= 0 && edgeDominates(id, id.Succs[zeroSucc], b) {
-				onZero = true
-			}
+			okAll = false
+			c.Bad("R6.4", cons, posOf(p, ret), "exit that is not behind the body read and not on the `length == 0` edge: the frame's body is left in the stream")
 		}
-		if onZero {
-			// no read may precede it
-			if mayFollow(u.Ins, ret) {
-				okAll = false
-				c.Bad("R6.4", cons, posOf(p, ret), "exit on the zero-length edge is reachable after the body read")
-			}
-			continue
-		}
-		okAll = false
-		c.Bad("R6.4", cons, posOf(p, ret), "exit that is not behind the body read and not on the `length == 0` edge: the frame's body is left in the stream")
 	}
 	if okAll {
 		c.OK("R6.4", cons, pos, "every exit lies behind the body read or on the `length == 0` edge (no read)")
